@@ -130,6 +130,18 @@ func (e *Engine) guardFunctions() ([]*ssa.Function, map[*ssa.Function]map[int]st
 		touches := false
 		for _, b := range fn.Blocks {
 			for _, ins := range b.Instrs {
+				for _, op := range ins.Operands(nil) {
+					if op == nil || *op == nil {
+						continue
+					}
+					if gl, ok := (*op).(*ssa.Global); ok && gl.Pkg != nil {
+						for _, g := range e.guarded {
+							if g.Type == "global" && g.Field == gl.Name() && g.Pkg == gl.Pkg.Pkg.Path() {
+								touches = true
+							}
+						}
+					}
+				}
 				var whole types.Type
 				switch x := ins.(type) {
 				case *ssa.UnOp:
